@@ -10,8 +10,10 @@ mako/codegen.py says *now*, as Lean constants:
                          (mkstemp -> write -> close -> rename) read from its AST; the model's writer IS this list
 * `writeLoops`         - whether the code writes until complete (os.write's return value checked in a loop, or a
                          buffered file object's .write) - False: a short write is ignored
+* `closeOnRaise`       - the write happens inside a `with` block: the file is closed while the exception unwinds
 * `tmpInTargetDir`     - mkstemp(dir=os.path.dirname(outputpath)): the temp file lives beside the destination, so
                          the final move is a rename within one directory (atomic)
+* `dropsBytecode`      - after the write the `__pycache__` entry of the module path is unlinked
 * `hookArgsOk`         - module_writer is called as module_writer(source, outputpath)
 
 A statement shape that is not understood raises RegenError (broken tie).
@@ -126,17 +128,37 @@ def staleness(repo):
                 and dotted(v.slice) == "stat.ST_MTIME"
     if not ok:
         raise RegenError("_compile_from_file: filemtime is not os.stat(filename)[stat.ST_MTIME]")
-    if not any(call_name(c) == "_compile_module_file" for c in ast.walk(ifnode)):
-        raise RegenError("_compile_from_file: the stale branch does not call _compile_module_file")
-    # the magic-number re-check
+    # helper methods of Template that (re)write the module file and hand back the module loaded from it:
+    #   def _h(self, path, filename): …; _compile_module_file(…); return compat.load_module(self.module_id, path)
+    helpers = set()
+    for m in cls.body:
+        if isinstance(m, ast.FunctionDef) and m.name != "_compile_from_file":
+            calls = [call_name(c) for c in ast.walk(m) if isinstance(c, ast.Call)]
+            rets = [r for r in ast.walk(m) if isinstance(r, ast.Return)]
+            if "_compile_module_file" in calls and rets and all(call_name(r.value) == "compat.load_module" for r in rets):
+                helpers.add("self." + m.name)
+
+    def writes(node):
+        return any(call_name(c) == "_compile_module_file" or call_name(c) in helpers for c in ast.walk(node))
+
+    def module_rebound(node):
+        """`module = compat.load_module(…)` or `module = self.<helper>(…)` happens in `node`"""
+        for a in ast.walk(node):
+            if isinstance(a, ast.Assign) and len(a.targets) == 1 and is_name(a.targets[0], "module") \
+                    and (call_name(a.value) == "compat.load_module" or call_name(a.value) in helpers):
+                return True
+        return False
+
+    if not writes(ifnode):
+        raise RegenError("_compile_from_file: the stale branch does not (re)write the module file")
+    # the magic-number re-check: rewrite AND use the module loaded afterwards
     recheck = False
     for n in ast.walk(fn):
         if isinstance(n, ast.If) and isinstance(n.test, ast.Compare) and len(n.test.ops) == 1 \
                 and isinstance(n.test.ops[0], ast.NotEq):
             names = {dotted(n.test.left), dotted(n.test.comparators[0])}
             if names == {"module._magic_number", "codegen.MAGIC_NUMBER"}:
-                calls = [call_name(c) for c in ast.walk(n) if isinstance(c, ast.Call)]
-                if "_compile_module_file" in calls and "compat.load_module" in calls:
+                if writes(n) and module_rebound(n):
                     recheck = True
     return CMP[type(cmp_.ops[0])], missing, recheck
 
@@ -149,19 +171,38 @@ def writer(repo):
     if params[-2:] != ["outputpath", "module_writer"]:
         raise RegenError("_compile_module_file: parameters changed: %s" % params)
     branch = [s for s in fn.body if isinstance(s, ast.If) and is_name(s.test, "module_writer")]
-    if len(branch) != 1 or fn.body[-1] is not branch[0]:
-        raise RegenError("_compile_module_file: expected a final `if module_writer: … else: …`")
+    if len(branch) != 1:
+        raise RegenError("_compile_module_file: expected one `if module_writer: … else: …`")
     br = branch[0]
+    # after the branch: nothing, or the removal of the cached bytecode of the file just replaced
+    #   try: os.unlink(<…>.cache_from_source(outputpath))  except (…): pass
+    tail = fn.body[fn.body.index(br) + 1:]
+    drops_bytecode = False
+    if tail:
+        t = tail[0]
+        ok = len(tail) == 1 and isinstance(t, ast.Try) and len(t.body) == 1 and isinstance(t.body[0], ast.Expr) \
+            and call_name(t.body[0].value) in ("os.unlink", "os.remove") and not t.finalbody and not t.orelse \
+            and all(len(h.body) == 1 and isinstance(h.body[0], ast.Pass) for h in t.handlers)
+        if ok:
+            a = t.body[0].value.args[0]
+            ok = isinstance(a, ast.Call) and (call_name(a) or "").endswith("cache_from_source") \
+                and len(a.args) == 1 and is_name(a.args[0], "outputpath")
+        if not ok:
+            raise RegenError("_compile_module_file: statement after the module_writer branch not understood (line %d)"
+                             % tail[0].lineno)
+        drops_bytecode = True
     hook_ok = False
     if len(br.body) == 1 and isinstance(br.body[0], ast.Expr) and call_name(br.body[0].value) == "module_writer":
         a = br.body[0].value.args
         hook_ok = len(a) == 2 and is_name(a[0], "source") and is_name(a[1], "outputpath") and not br.body[0].value.keywords
     ops = []
     loops = [False]
+    close_on_raise = [False]
     tmp_in_dir = [True]
     fdname = [None]
     tmpname = [None]
     fileobjs = {}          # name of a file object -> 'tmp' | 'dest'
+    pending = {}           # file object -> a buffered write whose bytes are in the file for sure only after flush/close
 
     def target_of_open(call):
         """open(x, 'wb') / os.fdopen(fd, 'wb'): which file?"""
@@ -200,7 +241,10 @@ def writer(repo):
                 ops.append("openDest")
             for b in s.body:
                 stmt(b)
+            if pending.pop(s.items[0].optional_vars.id, False):
+                ops.append("write")           # the buffer is flushed by the close at the end of the block
             ops.append("close")
+            close_on_raise[0] = True          # the context manager closes the file while an exception unwinds
             return
         if isinstance(s, ast.Expr) and isinstance(s.value, ast.Call):
             nm = call_name(s.value)
@@ -220,12 +264,18 @@ def writer(repo):
                 return
             if nm and "." in nm and nm.split(".")[0] in fileobjs and nm.split(".")[1] in ("write", "close", "flush"):
                 what = nm.split(".")[1]
+                fobj = nm.split(".")[0]
                 if what == "write":
                     if not is_name(c.args[0], "source"):
                         raise RegenError("_compile_module_file: file write of something other than `source`")
-                    ops.append("write")
-                    loops[0] = True          # BufferedWriter.write / FileIO via buffer: writes everything or raises
+                    pending[fobj] = True     # a buffered writer: the bytes may stay in user space until flush / close
+                    loops[0] = True          # BufferedWriter: writes everything or raises
+                elif what == "flush":
+                    if pending.pop(fobj, False):
+                        ops.append("write")
                 elif what == "close":
+                    if pending.pop(fobj, False):
+                        ops.append("write")
                     ops.append("close")
                 return
             # open(outputpath, 'wb').write(source)
@@ -250,9 +300,11 @@ def writer(repo):
 
     for s in br.orelse:
         stmt(s)
+    if pending:
+        raise RegenError("_compile_module_file: a buffered write is never flushed or closed")
     if not ops:
         raise RegenError("_compile_module_file: no file-system primitive found in the default branch")
-    return ops, loops[0], tmp_in_dir[0], hook_ok
+    return ops, loops[0], tmp_in_dir[0], hook_ok, close_on_raise[0], drops_bytecode
 
 
 def lean_bool(b):
@@ -268,7 +320,7 @@ def gen(repo):
         raise RegenError("codegen: `_magic_number = %r` % MAGIC_NUMBER is no longer emitted")
     tries = verify_dir_tries(repo)
     cmp_, missing, recheck = staleness(repo)
-    ops, loops, tmp_in_dir, hook_ok = writer(repo)
+    ops, loops, tmp_in_dir, hook_ok, close_on_raise, drops_bytecode = writer(repo)
     out = [HEADER % "mako/codegen.py, mako/util.py, mako/template.py (tools/regen_modfile.py)"]
     out.append("namespace MakoModel.Generated.ModFile\n")
     out.append("/-- file-system primitives a module writer can be made of -/")
@@ -288,8 +340,12 @@ def gen(repo):
                "def writerOps : List WOp := [%s]\n" % ", ".join("." + o for o in ops))
     out.append("/-- the write is repeated until every byte is written (os.write's result is looked at) -/\n"
                "def writeLoops : Bool := %s\n" % lean_bool(loops))
+    out.append("/-- a write that raises is followed by the close of the file (a `with` block) before the exception leaves -/\n"
+               "def closeOnRaise : Bool := %s\n" % lean_bool(close_on_raise))
     out.append("/-- `mkstemp(dir=os.path.dirname(outputpath))` -/\n"
                "def tmpInTargetDir : Bool := %s\n" % lean_bool(tmp_in_dir))
+    out.append("/-- after a (re)write the cached bytecode of the module path is removed -/\n"
+               "def dropsBytecode : Bool := %s\n" % lean_bool(drops_bytecode))
     out.append("/-- the hook is called as `module_writer(source, outputpath)` -/\n"
                "def hookArgsOk : Bool := %s\n" % lean_bool(hook_ok))
     out.append("end MakoModel.Generated.ModFile")
